@@ -626,7 +626,7 @@ func runExec(cfg *runCfg, prop string) error {
 				oracle = append(oracle, fmt.Sprintf("json_equiv %s %s", datas[0], datas[k]))
 			}
 		}
-		c.Printf("Eval vm_compute in (%d%%nat, %s, %s).\n", id, strings.Join(model, " && "), strings.Join(oracle, " && "))
+		c.Printf("Eval vm_compute in (\"%d\"%%string, %s, %s).\n", id, strings.Join(model, " && "), strings.Join(oracle, " && "))
 		nfail := 0
 		var walk func(t *xNode)
 		walk = func(t *xNode) {
